@@ -280,6 +280,9 @@ func profCase(r *rand.Rand, id int) *Case {
 			m.TypesEqual = false // no '{': detachTypeId refuses the query
 			lq = ltid
 		}
+		if lq == "" || rq == "" {
+			m.BodyOk = false // an empty query is a missing required parameter
+		}
 		ts := func(v int64) string { return fmt.Sprint(v) }
 		c.Params = []KV{{"leftQuery", lq}, {"rightQuery", rq}, {"leftFrom", ts(m.Start)}, {"leftUntil", ts(m.End)},
 			{"rightFrom", ts(profTimes[r.Intn(len(profTimes))])}, {"rightUntil", ts(profTimes[r.Intn(len(profTimes))])}}
